@@ -18,6 +18,9 @@ META = {
                     "class:pool_engaged_by_the_cube_itself", "class:xcube_pool_engaged_by_the_cube_itself"] for t in ("quick", "thorough")},
     "assumptions": ["blocks are compared with the 1-D cube of the same library (the property relates the two); values within 1e-9 of the data magnitude, missing cells exactly"],
 }
+META["rule"] += "; round 7: dimensions held in the narrowest integer dtype that fits their values (uint8/uint16/int8) with categories x positions beyond that dtype, each position's block compared with the count of its column alone"
+for _t in META["require"]:
+    META["require"][_t] = list(META["require"][_t]) + ['class:narrow_storage_dtype_with_categories*positions_beyond_it']
 
 
 def shards(tier):
